@@ -4,7 +4,10 @@
 EXTENDS Naturals, Sequences, TLC, Json
 CONSTANT MaxLen
 Kinds == {"setann", "setann_inplace", "setann_raise", "plain", "raise", "oneway_setann", "oneway_inplace", "batch_setann",
-          "batch_raise", "ping", "reconnect", "getattr_setann", "stream_setann", "unknown_member"}
+          "batch_raise", "ping", "reconnect", "getattr_setann", "stream_setann", "unknown_member",
+          \* a request that carries no annotations at all; a method that writes into the request annotations it was given;
+          \* a oneway request whose connection is reset before the daemon has read it
+          "plain_noann", "mutate_reqann", "oneway_then_reset"}
 Steps == [c : {1, 2}, kind : Kinds]
 VARIABLE h
 Init == h = <<>>
